@@ -206,9 +206,13 @@ pub fn bestmode(sink: &mut Sink, seed: u64, thorough: bool) {
 }
 
 /// C11: the candidates as the selection loop saw them (mask, score used for ranking, candidate matrix) and the choice.
-pub fn candidates(sink: &mut Sink, seed: u64, thorough: bool) {
+pub fn candidates(sink: &mut Sink, seed: u64, thorough: bool, corpus: &str) {
     let mut r = rng(seed, 15);
     let mut specs: Vec<BuildSpec> = Vec::new();
+    // inputs kept by the coverage-guided fuzzer (content the crate may treat specially), automatic mask only
+    if !corpus.is_empty() {
+        for mut st in crate::scen_build::discovered(corpus).into_iter().filter(|s| s.mask.is_none()) { st.tag = "cand:discovered".into(); specs.push(st); }
+    }
     let mk = |input: Vec<u8>, e: Option<usize>, mode: Option<usize>, v: Option<usize>, mask: Option<usize>, tag: String| BuildSpec { input, ecl: e, mode, version: v, mask, grp: 0, tag, lite: false };
     // the two witnesses of the design document first
     specs.push(mk(b"12345".to_vec(), None, None, None, None, "cand:witness".into()));
